@@ -467,7 +467,12 @@ func (s *Server) setReturnNodes(r *krpc.Return, queryMsg krpc.Msg, querySource A
 	if queryMsg.A == nil {
 		return &krpcErrMissingArguments
 	}
-	target := int160.FromByteArray(queryMsg.A.InfoHash)
+	// find_node and get name what they look for in "target", get_peers in "info_hash".
+	targetID := queryMsg.A.Target
+	if queryMsg.Q == "get_peers" {
+		targetID = queryMsg.A.InfoHash
+	}
+	target := int160.FromByteArray(targetID)
 	if shouldReturnNodes(queryMsg.A.Want, querySource.IP()) {
 		r.Nodes = s.makeReturnNodes(target, func(na krpc.NodeAddr) bool { return na.IP.To4() != nil })
 	}
